@@ -176,6 +176,7 @@ static void generate(RunSpec& s, int tier) {
   s.knobs["mem_switch_log2"] = memk[r(5)]; s.knobs["sync_switch_log2"] = synck[r(4)];
   static const int sp[] = {0, 0, 3, 15}; s.knobs["spurious_pct"] = sp[r(4)];
   static const int fz[] = {0, 0, 25, 60}; s.knobs["freeze_pct"] = fz[r(4)];
+  if (churn && r(2)) { s.knobs["freeze_pct"] = 60; s.knobs["sync_switch_log2"] = 1 + r(2); s.knobs["mem_switch_log2"] = 255; }   /* half of the churn plans: pre-emption at calls only, pre-empted clients stay away long (several clients parked inside run() at once) */
   bool sleepy = r(3) == 0;
   for (int c = 0; c < nc; ++c) {
     int n = 2 + (int)r(7); if (churn) n = 7 + (int)r(5);
